@@ -27,6 +27,8 @@ fn exe_for(profile: &str) -> String {
 }
 
 fn main() {
+    // backtraces of deliberately provoked aborts/panics cost thousands of allocations each
+    std::env::set_var("RUST_BACKTRACE", "0");
     hshim::install_panic_hook();
     let args: Vec<String> = std::env::args().skip(1).collect();
     if args.is_empty() {
